@@ -174,6 +174,13 @@ class ArityChecker(MultiFunction):
             numbers = set(tuple(sorted(set(arg[0].number() for arg in op))) for op in ops)
             if () in numbers:  # Allow e.g. <v[0], 0, v[1]> but not <v[0], u[0]>
                 numbers.remove(())
+                # ... and not <v[0], f>, which is affine and not linear in v
+                for op, component in zip(ops, o.ufl_operands):
+                    if not op and not isinstance(component, Zero):
+                        raise ArityMismatch(
+                            "Listtensor components must all depend on the form arguments "
+                            f"or be zero, found {component}."
+                        )
             if len(numbers) > 1:
                 raise ArityMismatch(
                     "Listtensor components must depend on the same argument numbers, "
